@@ -21,8 +21,7 @@ func (c *char) Attack(target key.TargetID, state info.ActionState) {
 		StanceDamage: 30.0,
 		EnergyGain:   20.0,
 	})
-	if c.info.Eidolon >= 1 {
-		targets := c.engine.AdjacentTo(target)
+	if targets := c.engine.AdjacentTo(target); c.info.Eidolon >= 1 && len(targets) > 0 {
 		randomIndex := c.engine.Rand().Intn(len(targets))
 		c.engine.Attack(info.Attack{
 			Key:        SkillAdjacent,
